@@ -103,3 +103,8 @@ fn unhashable_kinds_rejected() {
     assert!(!Value::ObjVec(vec_box.gc()).has_hash());
     std::mem::forget(vec_box);
 }
+
+// NOTE (tool limit, measured): a harness that stores a `Gc<ObjRange>` in a `Value` and dereferences it again
+// (`Value::eq` on two ranges) is "refuted" by CBMC with `misaligned pointer to reference cast` while the same inputs
+// pass natively — the pointer does not survive the trip through the `Value` enum (stack, Box and static cells alike;
+// `Option<Gc<_>>` is fine). Range equality is therefore stated on the extracted `Value::eq` in the Verus unit `valeq`.
